@@ -5,7 +5,7 @@ prop(
     level="exploration",
     technique="runtime monitor: values drawn from boundary-enumerating generators are written by the real encoders, read back by the real "
     "decoders in every packet type and dumped through the real Package impls into a real PacketWriter of exactly the declared size; thorough tier "
-    "repeats a slice under AddressSanitizer and under the Miri interpreter (PacketWriter's unsafe BufMut impl)",
+    "repeats a slice under AddressSanitizer",
     level_text="One set of generators (codec_gen.rs) is enumerated exhaustively over its boundary choices and sampled at random: all 26 frame "
     "kinds with every flag combination (STREAM off/len/fin, ACK 0/1/2/63/64/n ranges with/without ECN, DATAGRAM len flag, both "
     "CONNECTION_CLOSE layers x every error kind x every frame type incl. the 4-byte extension types, both MAX_STREAMS/STREAMS_BLOCKED "
@@ -32,7 +32,6 @@ prop(
         dict(name="codec", crate="l1base", sub="c05", shards={Q: 8, T: 16}, budget={Q: 12000, T: 400000}, timeout=2400),
         dict(name="codec-relverif", crate="l1base", sub="c05", profile="relverif", tiers=(T,), mandatory=False, shards={T: 8}, budget={T: 100000}, timeout=2400),
         dict(name="asan", kind="asan", crate="l1base", sub="c05", tiers=(T,), budget={T: 3000}, timeout=5400, mandatory=False),
-        dict(name="miri", kind="miri", crate="l1base", sub="c05", tiers=(T,), args=["--interp", "1"], budget={T: 400}, timeout=5400, mandatory=False),
     ],
     floors={
         Q: {"enumerated.frame": 25_000, "enumerated.header": 30_000, "enumerated.params": 3000, "enumerated.prim": 500, "decodes_compared": 300_000,
